@@ -165,7 +165,8 @@ def plan(prop, tier, seed):
     rng = random.Random(seed * 1000003 + int(prop[1:]))
     S = lambda: rng.randint(0, 1 << 30)
     G = []
-    n = lambda a, b: a if q else b
+    scale = int(os.environ.get("VERIF_THOROUGH_SCALE", "4"))   # the thorough tier runs `scale` times the scenario counts written below
+    n = lambda a, b: a if q else b * scale
 
     def data(k, **kw):
         for _ in range(k):
